@@ -10,7 +10,6 @@ import (
 	"fmt"
 	"os"
 	"reflect"
-	"runtime"
 	"runtime/debug"
 	"strings"
 	"sync"
@@ -292,18 +291,34 @@ func firstLine(s string) string {
 	return s
 }
 
-// hugeBegin / hugeEnd bracket a (sub-)case that may allocate a 2^31 entry channel.
-var hugeMu sync.Mutex
+// A queue length of 2^31 is accepted by most protocols and means a 16 GiB channel buffer.
+// Fresh from the OS that memory is never touched, but a garbage collection would scan it,
+// and if the span overlaps pages the runtime has used before the allocator zeroes all of it
+// (16 GiB resident, tens of seconds of page faults).  Therefore
+//   - cases known to contain such a call (scenario.huge) run alone in a fresh worker process
+//     started with GOGC=off: nothing is ever freed there, so every free page is untouched;
+//   - around any other call with the value 2^31 the collector is switched off, and if the
+//     value was accepted the worker exits after the current case.
+var (
+	workerMustExit bool
+	gcOffWorker    = os.Getenv("GOGC") == "off"
+)
 
 func hugeBegin() {
-	hugeMu.Lock()
-	debug.SetGCPercent(-1)
+	if !gcOffWorker {
+		debug.SetGCPercent(-1)
+	}
 }
 
-func hugeEnd() {
-	runtime.GC()
-	debug.SetGCPercent(100)
-	hugeMu.Unlock()
+// hugeEnd: accepted says whether memory may really have been allocated.
+func hugeEnd(accepted bool) {
+	if accepted {
+		workerMustExit = true
+		return
+	}
+	if !workerMustExit && !gcOffWorker {
+		debug.SetGCPercent(100)
+	}
 }
 
 // closeAll closes sockets in the background with a bounded wait; a wedged Close is not
